@@ -117,6 +117,46 @@ def check(ctx):
         ctx.ob("C18.R1", fi, "loc is passed through", kw(rt, "loc", 0) == n("loc"))
     ctx.require_min("penalty constructors", len(pairs), 2)
 
+    # ---- the class itself: supplied rank / log-pdet are kept and used as given, missing
+    # ones come from the eigenvalues of the precision with the instance tolerance
+    SELF_ = n("self")
+    mi = method(repo, mv, "__init__", own=True)
+    rmi = evaluate(repo, mi)
+    st_ = {}
+    for loc, val, _, cond in rmi.stores:
+        if loc[0] == "a" and loc[1] == SELF_:
+            st_.setdefault(loc[2], []).append((val, cond))
+    ok_init = all(st_.get(f) == [(n(a), ())] for f, a in (
+        ("_rank", "rank"), ("_log_pdet", "log_pdet"), ("_tol", "tol")))
+    prec_s, loc_s = st_.get("_prec", []), st_.get("_loc", [])
+    ok_pl = (len(prec_s) == 1 and len(loc_s) == 1
+             and is_call(prec_s[0][0], "jax.numpy.expand_dims") and prec_s[0][0][2][0] == n("prec")
+             and is_call(loc_s[0][0], "jax.numpy.expand_dims")
+             and loc_s[0][0][2][0] == ("call", ("g", "jax.numpy.atleast_1d"), (n("loc"),), ()))
+    ctx.ob("C18.R1", mi, "the constructor keeps rank, log_pdet and tol as given and stores prec "
+                         "and loc only with batch axes added", ok_init and ok_pl,
+           detail=f"fields ok={ok_init}, prec/loc ok={ok_pl}", stmt="constructor fields")
+    evals_self = ("proj", ("a", SELF_, "eig"), 0)
+    for pname, field, want_default in (
+            ("rank", "_rank", ("call", ("g", "liesel.distributions.mvn_degen._rank"),
+                               (evals_self,), (("tol", ("a", SELF_, "_tol")),))),
+            ("log_pdet", "_log_pdet", ("call", ("g", "liesel.distributions.mvn_degen._log_pdet"),
+                                       (evals_self, ("a", SELF_, "rank")),
+                                       (("tol", ("a", SELF_, "_tol")),)))):
+        pf = method(repo, mv, pname, own=True)
+        rp_ = evaluate(repo, pf).ret()
+        fld = ("a", SELF_, field)
+        ok_p_ = False
+        if rp_ is not None and rp_[0] == "phi" and rp_[1] == ("cmp", "is", fld, c(None)):
+            dflt = rp_[2]
+            ok_p_ = rp_[3] == fld and dflt[0] == "call" and dflt[1] == want_default[1] \
+                and kw(dflt, "eigenvalues", 0) == evals_self \
+                and kw(dflt, "tol", 2 if pname == "log_pdet" else 1) == ("a", SELF_, "_tol") \
+                and (pname == "rank" or kw(dflt, "rank", 1) == ("a", SELF_, "rank"))
+        ctx.ob("C18.R1", pf, f"{pname}: the supplied value if there is one, otherwise derived "
+                             f"from the eigenvalues of the precision (instance tolerance"
+                             + (", effective rank)" if pname == "log_pdet" else ")"), ok_p_,
+               detail=short(rp_ or (), 160), stmt=f"{pname} property")
     lpf = method(repo, mv, "_log_prob", own=True)
     rl = evaluate(repo, lpf).ret()
     ok_lp = False
